@@ -319,6 +319,40 @@ def main(mod, argv=None):
         for k in out.get('known', []):
             known_hits[k] = known_hits.get(k, 0) + 1
 
+    # --- 1a. corpus variants: every past finding replayed under every key kind (strings, tuples, frozendicts, negative
+    #     ints, ints with a falsy first action ...) and every rotation of the action ids - the same history, other labels
+    if getattr(mod, 'CORPUS_VARIANTS', False):
+        from .models import KEY_KINDS
+        for name in corpus:
+            if not name.endswith('.json'):
+                continue
+            with open(os.path.join(corpus_dir, name)) as f:
+                payload = json.load(f)
+            case0 = payload.get('case') or {}
+            spec0 = case0.get('spec')
+            if not isinstance(spec0, dict) or 'trans' not in spec0 or 'nA' not in spec0:
+                continue
+            nA = spec0['nA']
+            for kind in KEY_KINDS:
+                for rot in range(nA):
+                    if kind == spec0.get('kind') and rot == 0:
+                        continue
+                    c = copy.deepcopy(case0)
+                    c['spec']['kind'] = kind
+                    for tr in c['spec']['trans']:
+                        tr[1] = (tr[1] + rot) % nA
+                    c['spec']['trans'].sort(key=lambda tr: (tr[0], tr[1]))
+                    out = run_case(mod, c, script=payload.get('script'))
+                    corpus_runs += 1
+                    tag = f'corpus-variant:{name}:{kind}:rot{rot}'
+                    if out['status'] == 'harness_error':
+                        broken.append((tag, out['message']))
+                    elif out['status'] == 'violation':
+                        violations.append(dict(clause=out['clause'], key=out['key'], message=out['message'],
+                                               case=c, script=out.get('script'), index=tag))
+                    for k in out.get('known', []):
+                        known_hits[k] = known_hits.get(k, 0) + 1
+
     # --- 1b. property-specific extra phase (C13: fresh interpreters under other hash seeds)
     extra = []
     if hasattr(mod, 'extra_phase') and not args.runs_only:
